@@ -51,6 +51,9 @@ def well_formed(sig):
     return len(set(names)) == len(names)
 
 
+DEFAULTS = ('=None', '=0', '=7', "=''", '=()', '=False')
+
+
 def source(sig, fname='f', first=None):
     """`def` statement for the signature; the body returns every parameter, so that it cannot
     raise and two calls can be compared.  `first`: an extra leading parameter (for methods);
@@ -61,12 +64,13 @@ def source(sig, fname='f', first=None):
         parts.append(first)
         names.append(first)
         prev = 0 if (sig and sig[0][0] == 0) else 1
-    for k, nm, d in sig:
+    for i, (k, nm, d) in enumerate(sig):
         if prev == 0 and k != 0:
             parts.append('/')
         if k == 3 and prev not in (2, 3):
             parts.append('*')
-        parts.append({0: nm, 1: nm, 2: '*' + nm, 3: nm, 4: '**' + nm}[k] + ('=None' if d else ''))
+        # default values of different truthiness (a default is "there", whatever its value)
+        parts.append({0: nm, 1: nm, 2: '*' + nm, 3: nm, 4: '**' + nm}[k] + (DEFAULTS[i % len(DEFAULTS)] if d else ''))
         names.append(nm)
         prev = k
     if prev == 0:
